@@ -169,6 +169,12 @@ func newMirror(sub kcache.Subscription, seed []metav1.Object) *mirror {
 	return m
 }
 
+func (m *mirror) count() int {
+	m.mu.Lock()
+	defer m.mu.Unlock()
+	return len(m.events)
+}
+
 func (m *mirror) ids() []int {
 	m.mu.Lock()
 	defer m.mu.Unlock()
